@@ -10,7 +10,8 @@ import gtirb
 
 from .driver import block_kind, sorted_blocks, sorted_intervals
 
-TEMP = re.compile(r"^(\.L.*|\$L.*|L\$.*)_\d+$")
+# (temporary-label prefixes: .L on ELF and x64 PE, L on IA-32 PE, $L / L$ on MIPS / Mach-O style targets)
+TEMP = re.compile(r"^(\.L.*|\$L.*|L\$.*|Ls\d+[a-z]\w*)_\d+$")
 
 
 def norm_name(name, strip_temp):
